@@ -133,7 +133,7 @@ class Check:
                   level=self.level, coverage=cov,
                   assumptions=self.assumptions, wall_s=round(wall, 3),
                   violations=len(new))
-        evdir = os.path.join(VERIF, 'evidence')
+        evdir = os.environ.get('VERIF_EVIDENCE_DIR') or os.path.join(VERIF, 'evidence')
         os.makedirs(evdir, exist_ok=True)
         with open(os.path.join(evdir, self.pid + '.json'), 'w') as f:
             json.dump(ev, f, indent=1, sort_keys=True, default=str)
